@@ -130,6 +130,8 @@ func main() {
 		cmdSched(os.Args[2:])
 	case "iosched":
 		cmdIOSched(os.Args[2:])
+	case "lazy":
+		cmdLazy(os.Args[2:])
 	default:
 		fmt.Fprintf(os.Stderr, "unknown command %q\n", os.Args[1])
 		os.Exit(2)
